@@ -173,6 +173,17 @@ func lookupIn(s *DBState, staged []dbOp, key string) (dbRow, bool) {
 	return v, ok
 }
 
+// nullOK evaluates an optional "chkpt IS NOT NULL" (1) / "chkpt IS NULL" (2) filter on a row.
+func nullOK(row dbRow, nul int) bool {
+	switch nul {
+	case 1:
+		return row.Chkpt != nil
+	case 2:
+		return row.Chkpt == nil
+	}
+	return true
+}
+
 func queryRow(s *DBState, staged []dbOp, query string, args []any) *sql.Row {
 	r := &sql.Row{}
 	st := &rowState{}
@@ -182,6 +193,8 @@ func queryRow(s *DBState, staged []dbOp, query string, args []any) *sql.Row {
 		return r
 	}
 	op, _, cols, where := SQLParse(query)
+	nul := where / 4
+	where %= 4
 	if op != 2 || where != 1 || len(cols) != 1 {
 		Unsupported("QueryRow with an unrecognised SQL statement")
 	}
@@ -198,7 +211,7 @@ func queryRow(s *DBState, staged []dbOp, query string, args []any) *sql.Row {
 		return r
 	}
 	row, found := lookupIn(s, staged, key)
-	st.found = found
+	st.found = found && nullOK(row, nul)
 	switch cols[0] {
 	case colChkpt:
 		st.val = row.Chkpt
@@ -276,6 +289,8 @@ func RowScan(r *sql.Row, dest ...any) error {
 
 func execStmt(s *DBState, staged *[]dbOp, query string, args []any) (int64, error) {
 	op, conflict, cols, where := SQLParse(query)
+	nul := where / 4
+	where %= 4
 	whereKey := where >= 1
 	var cur []dbOp
 	if staged != nil {
@@ -348,7 +363,7 @@ func execStmt(s *DBState, staged *[]dbOp, query string, args []any) (int64, erro
 			Unsupported("UPDATE with a key of an unsupported type")
 		}
 		row, exists := lookupIn(s, cur, key)
-		if !exists {
+		if !exists || !nullOK(row, nul) {
 			return 0, nil // no row matches: nothing happens, no error
 		}
 		for i, c := range cols {
@@ -381,7 +396,7 @@ func execStmt(s *DBState, staged *[]dbOp, query string, args []any) (int64, erro
 			Unsupported("DELETE with a non-string key")
 		}
 		row, exists := lookupIn(s, cur, key)
-		if !exists {
+		if !exists || !nullOK(row, nul) {
 			return 0, nil
 		}
 		if where == 2 {
@@ -500,6 +515,8 @@ func TxRollback(tx *sql.Tx) error {
 // rowsFor evaluates a SELECT of one column, with or without WHERE logID = ?, into a row set.
 func rowsFor(s *DBState, staged []dbOp, query string, args []any) (*rowsState, bool) {
 	op, _, cols, where := SQLParse(query)
+	nul := where / 4
+	where %= 4
 	if op != 2 || len(cols) != 1 || where == 2 {
 		Unsupported("Query with an unrecognised SQL statement")
 	}
@@ -517,7 +534,7 @@ func rowsFor(s *DBState, staged []dbOp, query string, args []any) (*rowsState, b
 			Unsupported("SELECT with a non-string key")
 		}
 		row, found := lookupIn(s, staged, key)
-		if found {
+		if found && nullOK(row, nul) {
 			if cols[0] == colLogID {
 				st.vals = append(st.vals, key)
 				st.null = append(st.null, false)
@@ -534,7 +551,10 @@ func rowsFor(s *DBState, staged []dbOp, query string, args []any) (*rowsState, b
 	if cols[0] != colLogID {
 		Unsupported("unfiltered SELECT of a column other than logID")
 	}
-	for k := range s.Table {
+	for k, row := range s.Table {
+		if !nullOK(row, nul) {
+			continue
+		}
 		st.vals = append(st.vals, k)
 		st.null = append(st.null, false)
 	}
